@@ -17,6 +17,8 @@ use prqlc_parser::parser::pr;
 static CURRENT_LOG: RwLock<Option<DebugLog>> = RwLock::new(None);
 
 pub fn log_start() {
+    #[cfg(max_sixty_prql_verif)]
+    let _v = crate::verif_hooks::rw("CURRENT_LOG", true);
     let mut lock = CURRENT_LOG.write().unwrap();
     assert!(lock.is_none());
 
@@ -33,6 +35,8 @@ pub fn log_start() {
 }
 
 pub fn log_finish() -> Option<DebugLog> {
+    #[cfg(max_sixty_prql_verif)]
+    let _v = crate::verif_hooks::rw("CURRENT_LOG", true);
     let mut lock = CURRENT_LOG.write().unwrap();
     lock.take()
 }
@@ -47,6 +51,8 @@ pub fn log_stage(stage: Stage) {
 }
 
 pub fn log_entry(entry: impl FnOnce() -> DebugEntryKind) {
+    #[cfg(max_sixty_prql_verif)]
+    let _v = crate::verif_hooks::rw("CURRENT_LOG", true);
     let mut lock: std::sync::RwLockWriteGuard<'_, Option<DebugLog>> = CURRENT_LOG.write().unwrap();
     if let Some(log) = lock.as_mut() {
         if log.suppress_count > 0 {
@@ -58,6 +64,8 @@ pub fn log_entry(entry: impl FnOnce() -> DebugEntryKind) {
 }
 
 pub fn log_is_enabled() -> bool {
+    #[cfg(max_sixty_prql_verif)]
+    let _v = crate::verif_hooks::rw("CURRENT_LOG", false);
     let lock: std::sync::RwLockReadGuard<'_, Option<DebugLog>> = CURRENT_LOG.read().unwrap();
     if let Some(log) = lock.as_ref() {
         log.suppress_count == 0
@@ -153,6 +161,8 @@ pub struct LogSuppressLock(PhantomData<usize>);
 
 impl LogSuppressLock {
     fn new() -> Option<Self> {
+        #[cfg(max_sixty_prql_verif)]
+        let _v = crate::verif_hooks::rw("CURRENT_LOG", true);
         let mut lock = CURRENT_LOG.write().unwrap();
         if let Some(log) = lock.as_mut() {
             log.suppress_count += 1;
@@ -166,6 +176,8 @@ impl LogSuppressLock {
 
 impl Drop for LogSuppressLock {
     fn drop(&mut self) {
+        #[cfg(max_sixty_prql_verif)]
+        let _v = crate::verif_hooks::rw("CURRENT_LOG", true);
         let mut lock = CURRENT_LOG.write().unwrap();
         if let Some(log) = lock.as_mut() {
             log.suppress_count -= 1;
